@@ -1,16 +1,22 @@
 """Delta debugging over the lines of a scenario."""
 
 
-def shrink(lines, fails, keep=lambda l: False, budget=200):
-    """Greedy ddmin: remove chunks of lines while `fails(lines)` stays true. `keep(line)` protects lines."""
+import time
+
+
+def shrink(lines, fails, keep=lambda l: False, budget=200, wall_s=240):
+    """Greedy ddmin: remove chunks of lines while `fails(lines)` stays true. `keep(line)` protects lines.
+    Stops after `budget` trials or `wall_s` seconds, whichever comes first."""
     cur = list(lines)
     n = 2
     calls = 0
-    while len(cur) >= 2 and calls < budget:
+    t0 = time.time()
+    budget_left = lambda: calls < budget and time.time() - t0 < wall_s
+    while len(cur) >= 2 and budget_left():
         size = max(1, len(cur) // n)
         removed = False
         i = 0
-        while i < len(cur) and calls < budget:
+        while i < len(cur) and budget_left():
             cand = [l for j, l in enumerate(cur) if not (i <= j < i + size) or keep(l)]
             if len(cand) < len(cur):
                 calls += 1
